@@ -33,6 +33,7 @@ func exclusiveCheck(r *vrt.Result) string {
 	var order []int
 	supplied := map[string]string{} // fn name -> key
 	mapEmpty := -1
+	var rateCancelAt int64
 	for _, e := range r.Events {
 		switch e.Kind {
 		case "call":
@@ -73,6 +74,8 @@ func exclusiveCheck(r *vrt.Result) string {
 			}
 		case "map-empty":
 			mapEmpty = e.Int(0)
+		case "rate-cancel":
+			rateCancelAt = e.Seq
 		}
 	}
 	// C09: per key, executions never overlap (the extent of a rate-limited one is its wrapper's)
@@ -143,6 +146,9 @@ func exclusiveCheck(r *vrt.Result) string {
 			// only legitimate for an execution that returned without resolving
 			if c.err == "" {
 				return fmt.Sprintf("empty-outcome: call %d received (nil, nil)", id)
+			}
+			if c.err == "context canceled" && rateCancelAt != 0 && rateCancelAt < c.outcomeAt {
+				continue // the rate limit's context was cancelled: its wrapper resolves (nil, ctx.Err()) for the whole batch
 			}
 			found := false
 			for _, x := range execs {
